@@ -25,17 +25,17 @@ RULE = ("case = (scenario variant, injector kind); inside: every abort index; a 
         "monitor_counters: runs per injector, events and deliveries checked")
 ASSUMPTIONS = ["abort = OptimizationAborted(USER_ABORT) raised by user code (observer, handler or evaluator), as BasicOptimizer.set_abort_callback does"]
 REQUIRED = {"quick": {"abort_runs.observer": 400, "abort_runs.handler": 400, "abort_runs.evaluator": 150, "events_checked": 15000, "deliveries_checked": 60000,
-                      "streams_checked": 2000, "latch_checked": 900, "later_steps_refused": 300, "nested_abort_runs": 200, "basic_optimizer_abort_runs": 24, "__nontrivial__": 900},
+                      "streams_checked": 2000, "latch_checked": 900, "later_steps_refused": 300, "nested_abort_runs": 200, "three_level_abort_runs": 600, "basic_optimizer_abort_runs": 24, "__nontrivial__": 900},
             "thorough": {"abort_runs.observer": 5000, "abort_runs.handler": 5000, "abort_runs.evaluator": 2000, "events_checked": 200000, "deliveries_checked": 1000000,
-                         "streams_checked": 25000, "latch_checked": 12000, "later_steps_refused": 6000, "nested_abort_runs": 4000, "basic_optimizer_abort_runs": 200, "__nontrivial__": 12000}}
+                         "streams_checked": 25000, "latch_checked": 12000, "later_steps_refused": 6000, "nested_abort_runs": 4000, "three_level_abort_runs": 7000, "basic_optimizer_abort_runs": 200, "__nontrivial__": 12000}}
 N = {"quick": 48, "thorough": 600}
-SCENARIOS = ["optimizer", "evaluator", "sequential", "nested"]
+SCENARIOS = ["optimizer", "evaluator", "sequential", "nested", "nested3"]
 
 
 def cases(tier, seed):
     for i in range(N[tier]):
         for inj in ("observer", "handler", "evaluator"):
-            yield {"i": i, "scenario": SCENARIOS[i % 4], "injector": inj}
+            yield {"i": i, "scenario": SCENARIOS[i % 5], "injector": inj}
     for i in range(40 if tier == "quick" else 400):
         yield {"i": i, "scenario": "basic", "injector": "callback"}
 
@@ -99,8 +99,8 @@ def _pm():
     return pm
 
 
-def _spec(rng, nan=False, maxf=None, method="slsqp"):
-    V, R, P = 2, int(rng.integers(1, 3)), 2
+def _spec(rng, nan=False, maxf=None, method="slsqp", V=2):
+    R, P = int(rng.integers(1, 3)), V
     spec = {"V": V, "R": R, "P": P, "rweights": [1.0] * R, "oweights": [1.0], "n_con": 0, "x0": rng.uniform(-0.3, 0.3, size=V).tolist(), "seed": 3, "magnitudes": [0.01],
             "samplers": [{"method": "verif/design", "options": {"samples": np.eye(V).tolist()}}],
             "ensemble": {"kind": "quad", "a": (rng.normal(size=(R, 1, V)) * 0.3).tolist(), "b": rng.normal(size=(R, 1)).tolist(), "q": [1.0], "c": (rng.normal(size=(R, V)) * 0.3).tolist()},
@@ -123,7 +123,7 @@ def build(scenario, rng, world, raise_at):
     from ropt.results import FunctionResults  # noqa: PLC0415
 
     variant = int(rng.integers(0, 3))
-    spec = _spec(rng, nan=(variant == 1), maxf=(int(rng.integers(2, 5)) if variant == 2 else None))
+    spec = _spec(rng, nan=(variant == 1), maxf=(int(rng.integers(2, 5)) if variant == 2 else None), V=3 if scenario == "nested3" else 2)
     ev = ens.RecordingEvaluator(spec, raise_at=raise_at)
     ctx = OptimizerContext(evaluator=ev, plugin_manager=_pm())
     observers = []
@@ -134,10 +134,10 @@ def build(scenario, rng, world, raise_at):
             observers.append((et, tag))
     plans, step_plan, steps = {}, {}, []
 
-    def mkplan(name, parent=None):
+    def mkplan(name, parent=None, recorders=2):
         plan = Plan(ctx)
         plans[name] = {"plan": plan, "handlers": [], "parent": parent}
-        for n in range(2):
+        for n in range(recorders):
             tag = f"h:{name}:{n}"
             plan.add_handler("verifrec/recorder", tag=tag, first=(n == 0))
             plans[name]["handlers"].append(tag)
@@ -159,6 +159,38 @@ def build(scenario, rng, world, raise_at):
             step_plan[s] = "main"
         spec2 = dict(spec, x0=(np.asarray(spec["x0"]) + 0.1).tolist(), nan=[])
         steps = [("optimizer", s1, {"config": cfgd}), ("evaluator", s2, {"config": cfgd}), ("optimizer", s3, {"config": ens.make_config_dict(spec2)})]
+    elif scenario == "nested3":
+        # three levels; the plan in the middle has no handlers of its own (the tracker of its step lives in the outer plan)
+        middle = mkplan("middle", parent="main", recorders=0)
+        inner = mkplan("inner", parent="middle")
+        si, sm, so = inner.add_step("optimizer"), middle.add_step("optimizer"), main.add_step("optimizer")
+        step_plan[si], step_plan[sm], step_plan[so] = "inner", "middle", "main"
+        small = {"method": "slsqp", "max_iterations": 1, "options": {"maxiter": 1}, "max_functions": 2}
+        icfg = ens.make_config_dict(dict(spec, mask=[False, False, True], optimizer=small, nan=[]))
+        mcfg = ens.make_config_dict(dict(spec, mask=[False, True, False], optimizer=small, nan=[]))
+        tracker_i = inner.add_handler("tracker", sources={si})
+        plans["inner"]["extra_handlers"] = 1
+        tracker_m = main.add_handler("tracker", sources={sm})
+        plans["main"]["extra_handlers"] = 1
+
+        def inner_fn(plan, variables):
+            plan.set(tracker_i, "results", None)
+            plan.run_step(si, config=icfg, variables=variables)
+            res = plan.get(tracker_i, "results")
+            return res if isinstance(res, FunctionResults) else None
+
+        def middle_fn(plan, variables):
+            main.set(tracker_m, "results", None)
+            plan.run_step(sm, config=mcfg, variables=variables, nested_optimization=inner)
+            res = main.get(tracker_m, "results")
+            return res if isinstance(res, FunctionResults) else None
+
+        inner.add_function(inner_fn)
+        middle.add_function(middle_fn)
+        ospec = dict(spec, mask=[True, False, False], optimizer=dict(spec["optimizer"], max_functions=2))
+        s2 = main.add_step("evaluator")
+        step_plan[s2] = "main"
+        steps = [("optimizer", so, {"config": ens.make_config_dict(ospec), "nested_optimization": middle}), ("evaluator", s2, {"config": cfgd})]
     else:
         inner = mkplan("inner", parent="main")
         si = inner.add_step("optimizer")
@@ -320,6 +352,14 @@ def check_run(obs, world, outcomes, plans, step_plan, observers, steps, tag, inj
             if "inner" in plans and aborted_step is not None and step_plan.get(aborted_step) == "inner" and not plans["inner"]["plan"].aborted:
                 obs.violation("inner_plan_not_marked_aborted", raised_at=raised_type, **tag)
                 return False
+            # the plan of the step at which the abort arose and every ancestor of it is marked aborted
+            name = step_plan.get(aborted_step) if aborted_step is not None else None
+            while name is not None:
+                obs.count("plans_on_the_abort_path_checked")
+                if not plans[name]["plan"].aborted:
+                    obs.violation("plan_on_the_abort_path_not_marked_aborted", plan=name, raised_at=raised_type, **tag)
+                    return False
+                name = plans[name]["parent"]
             for later in outcomes[idx + 1:]:
                 obs.count("later_steps_refused")
                 if later[0] != "PlanAborted":
@@ -383,6 +423,8 @@ def run_case(case, obs):
         obs.count("abort_runs." + inj)
         if scenario == "nested":
             obs.count("nested_abort_runs")
+        if scenario == "nested3":
+            obs.count("three_level_abort_runs")
         obs.nontrivial(case["i"], scenario, inj, k)
         tag = {"scenario": scenario, "injector": inj, "index": k}
         check_run(obs, w, outcomes, plans, step_plan, observers, steps, tag, (inj, k), scenario)
